@@ -467,6 +467,33 @@ def gen_corpus():
 
 
 # ------------------------------------------------------------------ driver
+def private_engine():
+    """Other checks may relink engine/pan_engine while this one runs (shared tree): work on a verified private copy."""
+    import atexit
+    import os
+    import shutil
+    import subprocess
+    import time
+    if getattr(common, "_c05_private_engine", None):
+        return
+    src = common.VERIF / "engine" / "pan_engine"
+    dst = common.WORK / f"pan_engine_c05_{os.getpid()}"
+    common.WORK.mkdir(exist_ok=True)
+    for _ in range(30):
+        try:
+            shutil.copy2(src, dst)
+            r = subprocess.run([str(dst)], input="503 (3 300)\n", capture_output=True, text=True, timeout=20)
+            if r.returncode == 0 and r.stdout.strip() == "(0 16)":
+                common.ENGINE = dst
+                common._c05_private_engine = dst
+                atexit.register(lambda: dst.exists() and dst.unlink())
+                return
+        except Exception:  # noqa
+            pass
+        time.sleep(1)
+    raise RuntimeError("could not obtain a working copy of the extracted engine")
+
+
 def process(ctx, chunk, triples, state):
     impls = [run_impl(p, r, bk) for _, p, r, bk in chunk]
     b504, b502 = Batch(504), Batch(502)
@@ -524,6 +551,7 @@ def describe(im):
 
 
 def run(ctx):
+    private_engine()
     state = {"ok": 0, "rejected": 0, "shrunk": 0, "pairs": {}}
     triples = []
     # model rules (default backend, dtype chain) on boundary values, against the implementation's helpers
@@ -569,6 +597,7 @@ def replay(path):
     d = json.loads(open(path).read())
     pred, ref = common.arr_from_json(d["pred"]), common.arr_from_json(d["ref"])
     bk = d["backend"]
+    private_engine()
     viol, dis, im, mo = evaluate(pred.copy(), ref.copy(), bk)
     print("backend:", bk or "default", " dtype:", pred.dtype)
     print("prediction map:\n", pred, "\nreference map:\n", ref)
